@@ -126,6 +126,15 @@ func morassFacts(repo string) (string, error) {
 		t := src(fd.Body)
 		setErrOK = strings.Contains(t, "Lock()") && strings.Contains(t, "Unlock()")
 	}
+	// Push: the element-type check is the first statement and returns at once (the model's
+	// rejected Push is a caller block that changes nothing)
+	typeFirst := false
+	if b := funcs["Push"].Body.List; len(b) > 0 {
+		if is, ok := b[0].(*ast.IfStmt); ok && is.Init != nil && is.Else == nil && len(is.Body.List) == 1 {
+			_, ret := is.Body.List[0].(*ast.ReturnStmt)
+			typeFirst = ret && src(is.Init) == "typ := reflect.TypeOf(e)" && src(is.Cond) == "typ != m.typ"
+		}
+	}
 	var sb strings.Builder
 	sb.WriteString("namespace Biogo.Generated.MorassFacts\n\n")
 	fmt.Fprintf(&sb, "/-- Push: `m.writable <- m.chunk; m.writers.Add(1); go m.write()` consecutive, the only `go` -/\ndef pushAddsBeforeSpawn : Bool := %v\n", pushOK)
@@ -133,6 +142,7 @@ func morassFacts(repo string) (string, error) {
 	fmt.Fprintf(&sb, "/-- write: first statement is `defer m.writers.Done()` -/\ndef writeDefersDoneFirst : Bool := %v\n", doneOK)
 	fmt.Fprintf(&sb, "/-- write: `m.files = append(m.files, f)` between filesLock.Lock and Unlock -/\ndef filesAppendUnderLock : Bool := %v\n", lockOK)
 	fmt.Fprintf(&sb, "/-- setErr takes the error lock -/\ndef setErrLocks : Bool := %v\n", setErrOK)
+	fmt.Fprintf(&sb, "/-- Push: first statement is `if typ := reflect.TypeOf(e); typ != m.typ { return ... }` -/\ndef pushChecksTypeFirst : Bool := %v\n", typeFirst)
 	sb.WriteString("\nend Biogo.Generated.MorassFacts\n")
 	return sb.String(), nil
 }
